@@ -20,6 +20,7 @@ import common
 import coreops
 import fbagen
 import lpcert
+import auxcorr
 from c05 import gen_bounded_spec
 from c09 import feasibility_problems
 
@@ -300,6 +301,24 @@ def check_case(case):
     return check_solution_case(case) if case["kind"] == "solution" else check_add_loopless_case(case)
 
 
+def aux_stage(ctx):
+    """The problem `loopless_solution` hands to GLPK vs `AuxM.Net.cycleFree`; returns oracle cases on the models where they differ."""
+    def f_cf(make, spec, rng):
+        m = make()
+        if rng.random() < 0.4:
+            # a start vector pushed through a cycle: optimise a reaction of the model first
+            r = rng.choice(list(m.reactions))
+            with m:
+                m.objective = {r: 1.0}
+                m.objective_direction = rng.choice(["max", "min"])
+                fl = m.optimize().fluxes
+        else:
+            fl = m.optimize().fluxes
+        return auxcorr.pairs_cycle_free(m, fl)
+    mism = auxcorr.stage(ctx, [("loopless_solution", f_cf)], gen_spec, ctx.scale(60, 800))
+    return [{"kind": "solution", "spec": mm["spec"], "give_fluxes": g, "push": None, "interleave": None} for mm in mism[:6] for g in (True, False)]
+
+
 def run(ctx):
     if getattr(ctx, "replay", None):
         data = json.loads(open(ctx.replay).read())
@@ -311,14 +330,15 @@ def run(ctx):
                 print(f"VIOLATION property=C17 replay={ctx.replay}")
                 return 1
         return 0
-    common.proof_stage(ctx, "CobraModel.Props.C17", extra_scan=["CobraModel/Lemmas/Formulations.lean", "CobraModel/Lemmas/LP.lean"])
+    common.proof_stage(ctx, "CobraModel.Props.C17", extra_scan=["CobraModel/Lemmas/Formulations.lean", "CobraModel/Lemmas/LP.lean"] + auxcorr.SCAN)
+    directed = aux_stage(ctx)
     rng = ctx.rng
     n = ctx.scale(150, 3000)
     ran, tries = 0, 0
     skipped, kinds = {}, {"solution": 0, "add_loopless": 0, "with_cycle_reactions": 0, "min_direction": 0}
     distinct = set()
     samples = []
-    corpus = common.load_corpus("C17")
+    corpus = directed + common.load_corpus("C17")
     kinds["corpus"] = len(corpus)
     while ran < n and tries < n * 3 and not ctx.violations:
         tries += 1
